@@ -386,14 +386,31 @@ Definition spec_entry (fl : ctor_flags) (sd : sdecl) : ventry :=
    before it looks at the accessors (finding K_getset_excluded_field) *)
 Definition no_excluded_fields (sd : sdecl) : bool := struct_clean sd.
 
-(* the name of a field of the struct itself occurs nowhere below an embedded field and is not the
-   name of an embedded struct: makeGetSet visits every name once, first occurrence wins
-   (finding K_getset_once_shadow) *)
+(* no occurrence with the name of a field of the struct itself PRECEDES that field in depth-first declaration
+   order (below an embedded field declared before it, or that embedded field itself): makeGetSet visits every
+   name once, first occurrence wins (finding K_getset_once_shadow).  A field that shadows a promoted one declared
+   AFTER it is fine. *)
 Definition own_names (sd : sdecl) : list ident := flat_map fd_names (sd_fields sd).
-Definition own_names_fresh (pkg : pkg_spec) (fuel : nat) (sd : sdecl) : bool :=
-  forallb (fun o => (Nat.eqb (length (fst o)) 1 && negb (occ_emb o)) ||
-                    negb (existsb (String.eqb (occ_name o)) (own_names sd)))
-          (all_occ pkg fuel (self_inst sd)).
+
+(* every name that occurs in the closure of an embedded field of type t, the field itself included *)
+Definition names_below (pkg : pkg_spec) (fuel : nat) (t : ty) : list ident :=
+  short_name t ::
+  match struct_of pkg t with
+  | Some si => flat_map (fun n => map occ_name (level pkg n si [])) (seq 0 fuel)
+  | None => []
+  end.
+
+Fixpoint own_first (pkg : pkg_spec) (fuel : nat) (fds : list fdecl) (seen : list ident) : bool :=
+  match fds with
+  | [] => true
+  | fd :: r =>
+      match fd_names fd with
+      | [] => own_first pkg fuel r (names_below pkg fuel (fd_ty fd) ++ seen)%list
+      | ns => forallb (fun n => negb (existsb (String.eqb n) seen)) ns && own_first pkg fuel r seen
+      end
+  end.
+
+Definition own_names_fresh (pkg : pkg_spec) (fuel : nat) (sd : sdecl) : bool := own_first pkg fuel (sd_fields sd) [].
 
 (* no plain field of the closure carries the name of an embedded struct of the closure (the
    once-per-name visit would then skip the embedded struct, or the field) *)
